@@ -186,7 +186,11 @@ Accept(b, m, k, fix) ==
                       [main |-> IF fix THEN m ELSE att.chain,
                        known |-> k \cup {b}, ok |-> FALSE, inMain |-> FALSE,
                        strand |-> ~fix /\ att.chain # m,
-                       ev |-> IF fix THEN <<>> ELSE evs]
+                       \* the repaired code takes the attached part off again and
+                       \* re-attaches the blocks it had detached
+                       ev |-> IF fix THEN evs \o EvD(RevSeq(SubSeq(att.chain, f + 1, Len(att.chain))))
+                                              \o EvC(SubSeq(m, f + 1, Len(m)))
+                                     ELSE evs]
 
 (* ProcessOrphans(b): breadth-first over the orphans whose parent was just *)
 (* accepted, in arrival order; the first orphan that fails stops the whole *)
